@@ -15,6 +15,7 @@ import (
 	"os/exec"
 	"sort"
 	"strings"
+	"syscall"
 	"time"
 )
 
@@ -122,15 +123,33 @@ func (c *Ctx) Case(nontrivial bool, caseText string) {
 	c.N++
 }
 
-// runIsolated executes one case in a child process (`corr -prop P -one <case>`).
+// runIsolated executes one case in a child process (`corr -prop P -one <case>`). A child that does not end within the
+// watchdog is asked for its goroutine stacks (SIGQUIT, kept in a file for inspection), killed, and the case is run again
+// up to twice: only a case that does not end in any of the three attempts is reported as a hang (a single stall on an
+// overloaded machine is not a property of the code, and a hang that cannot be replayed is not a usable report).
 func runIsolated(prop, caseText string) string {
+	obs := ""
+	for attempt := 1; attempt <= 3; attempt++ {
+		var hung bool
+		obs, hung = runIsolatedOnce(prop, caseText)
+		if !hung {
+			if attempt > 1 {
+				fmt.Fprintf(os.Stderr, "note: case ended on attempt %d after a stalled child: %s %s\n", attempt, prop, caseText)
+			}
+			return obs
+		}
+	}
+	return obs
+}
+
+func runIsolatedOnce(prop, caseText string) (string, bool) {
 	cmd := exec.Command(os.Args[0], "-prop", prop, "-one", caseText)
 	cmd.Env = append(os.Environ(), "VERIF_NO_ISOLATE=1")
 	var out, errb bytes.Buffer
 	cmd.Stdout, cmd.Stderr = &out, &errb
 	done := make(chan error, 1)
 	if err := cmd.Start(); err != nil {
-		return "harness-panic cannot start child: " + err.Error()
+		return "harness-panic cannot start child: " + err.Error(), false
 	}
 	go func() { done <- cmd.Wait() }()
 	select {
@@ -143,12 +162,23 @@ func runIsolated(prop, caseText string) string {
 			if j := strings.IndexByte(msg, '\n'); j >= 0 {
 				msg = msg[:j]
 			}
-			return "crash " + strings.TrimSpace(msg)
+			return "crash " + strings.TrimSpace(msg), false
 		}
-		return strings.TrimRight(out.String(), "\n")
+		return strings.TrimRight(out.String(), "\n"), false
 	case <-time.After(60 * time.Second):
-		_ = cmd.Process.Kill()
-		return "hang (child killed after 60s)"
+		_ = cmd.Process.Signal(syscall.SIGQUIT) // the Go runtime prints every goroutine's stack and exits
+		select {
+		case <-done:
+		case <-time.After(5 * time.Second):
+			_ = cmd.Process.Kill()
+			<-done
+		}
+		if f, err := os.CreateTemp("", "shpanverif-hang-*.txt"); err == nil {
+			fmt.Fprintf(f, "%s %s\n%s", prop, caseText, errb.String())
+			f.Close()
+			fmt.Fprintf(os.Stderr, "note: child did not end within 60s, goroutine stacks in %s\n", f.Name())
+		}
+		return "hang (child killed after 60s)", true
 	}
 }
 
